@@ -485,6 +485,35 @@ def style_case(sub: Ctx, seed: int, h: int):
                 kw["name"] = f"P{j} " + kw["name"]
             news.append(bdoc.add_style(**kw))
             log2.append(dict(kw))
+        if not reopened and rng.random() < 0.6:
+            # an attribute of a style that is already applied (and saved) is changed on the Style object itself: every
+            # cell that carries the style shows the new value, now and after the next save
+            k = rng.choice(sorted(set(styled.values())))
+            st = styles[k]
+            a = rng.choice(["valign", "halign", "bold", "font_size", "text_inset", "text_wrap", "bg_color", "left_indent"])
+            from numbers_parser import RGB, Alignment
+            cur_h, cur_v = st.alignment.horizontal.name.lower(), st.alignment.vertical.name.lower()
+            if a == "valign":
+                st.alignment = Alignment(cur_h, rng.choice([v for v in VERT if v != cur_v]))
+            elif a == "halign":
+                st.alignment = Alignment(rng.choice([h for h in HORIZ if h != cur_h]), cur_v)
+            elif a == "bold":
+                st.bold = not st.bold
+            elif a == "font_size":
+                st.font_size = rng.choice([x for x in SIZES if x != st.font_size])
+            elif a == "text_inset":
+                st.text_inset = rng.choice([x for x in F32 if x != st.text_inset])
+            elif a == "text_wrap":
+                st.text_wrap = not st.text_wrap
+            elif a == "bg_color":
+                st.bg_color = RGB(rng.randrange(256), rng.randrange(256), rng.randrange(256))
+            else:
+                st.left_indent = rng.choice([x for x in F32 if x != st.left_indent])
+            log2.append({"changed_attribute_of_style": k, "attribute": a})
+            for rc, kk in styled.items():
+                if kk == k:
+                    expected[rc] = style_tuple(st)
+            want[k] = style_tuple(st)
         pool = sorted(styled) + [rc for rc in cells if rc not in styled][:2]
         rng.shuffle(pool)
         for (r, c) in pool[: rng.randint(1, max(1, len(pool) // 2 + 1))]:
